@@ -189,24 +189,29 @@ Qed.
 Definition coef (v : value) : Z := match v with VAddr _ => 1%Z | _ => 0%Z end.
 Definition coef_expr (l : value) (op : N) (r : value) : Z := if op =? 43 then (coef l + coef r)%Z else (coef l - coef r)%Z.
 
-Lemma term_value_A v z : term_value all v = Ok z -> exists z', term_value all' v = Ok z' /\ z' = (z + coef v * D)%Z.
+(* a term that is not itself label arithmetic; an expression of two such terms joined by + or - *)
+Definition flat (v : value) : Prop := match v with VExpr _ _ _ _ true => False | _ => True end.
+Definition ops_ok (l : value) (op : N) (r : value) : Prop := (op = 43 \/ op = 45) /\ flat l /\ flat r.
+
+Lemma term_value_A v z : flat v -> term_value all v = Ok z -> exists z', term_value all' v = Ok z' /\ z' = (z + coef v * D)%Z.
 Proof.
-  destruct v; cbn [term_value coef]; try (intros H; injection H as <-; eexists; split; [reflexivity | rewrite Z.mul_0_l, Z.add_0_r; reflexivity]).
+  intros Hf. destruct v as [ | vn | nm vm | idx | el eo er em [] | xl xr xm | str | hx | ]; try contradiction;
+    cbn [term_value coef]; try (intros H; injection H as <-; eexists; split; [reflexivity | rewrite Z.mul_0_l, Z.add_0_r; reflexivity]).
   intros H. apply bind_ok in H as [a [Ha H]]. inversion H; subst. destruct (addr_of_A _ _ Ha) as (a' & Ha' & Hd).
   rewrite Ha'. cbn [bind]. eexists. split; [reflexivity | lia].
 Qed.
 
-Lemma calc_offset_z_A l op r z : (op = 43 \/ op = 45) -> calc_offset_z all l op r = Ok z ->
+Lemma calc_offset_z_A l op r z : ops_ok l op r -> calc_offset_z all l op r = Ok z ->
   exists z', calc_offset_z all' l op r = Ok z' /\ z' = (z + coef_expr l op r * D)%Z.
 Proof.
-  intros Hop H. unfold calc_offset_z in *. apply bind_ok in H as [a [Ha H]]. apply bind_ok in H as [b [Hb H]].
-  destruct (term_value_A _ _ Ha) as (a' & Ha' & Ea). destruct (term_value_A _ _ Hb) as (b' & Hb' & Eb).
+  intros (Hop & Fl & Fr) H. unfold calc_offset_z, offset_arith in *. apply bind_ok in H as [a [Ha H]]. apply bind_ok in H as [b [Hb H]].
+  destruct (term_value_A _ _ Fl Ha) as (a' & Ha' & Ea). destruct (term_value_A _ _ Fr Hb) as (b' & Hb' & Eb).
   rewrite Ha', Hb'. cbn [bind]. unfold coef_expr. destruct Hop as [-> | ->].
   - change (43 =? 43) with true in *. cbv iota in *. inversion H; subst. eexists. split; [reflexivity | lia].
   - change (45 =? 43) with false in *. change (45 =? 45) with true in *. cbv iota in *. inversion H; subst. eexists. split; [reflexivity | lia].
 Qed.
 
-Lemma calc_offset_A l op r v v' : (op = 43 \/ op = 45) -> calc_offset all l op r = Ok v -> calc_offset all' l op r = Ok v' ->
+Lemma calc_offset_A l op r v v' : ops_ok l op r -> calc_offset all l op r = Ok v -> calc_offset all' l op r = Ok v' ->
   value_number v' = (value_number v + coef_expr l op r * D)%Z.
 Proof.
   intros Hop H H'. unfold calc_offset in *. apply bind_ok in H as [z [Hz H]]. apply bind_ok in H as [n [Hn H]]. inversion H; subst v.
@@ -304,9 +309,9 @@ Definition coef_stmt (s : stmt) : Z :=
 (* label arithmetic is + or - only, and a PC-relative target holds exactly one label positively (label, label+n,
    n+label, label-n) *)
 Definition reloc_ok (s : stmt) : Prop :=
-  (forall l op r m, operand_value (s_operand s) = VExpr l op r m true -> op = 43 \/ op = 45) /\
+  (forall l op r m, operand_value (s_operand s) = VExpr l op r m true -> ops_ok l op r) /\
   (forall l op r m, operand_left (s_operand s) = Some (LVal (VExpr l op r m true)) ->
-     (op = 43 \/ op = 45) /\ (addr_offset (s_pkg s) = false -> coef_expr l op r = 1%Z)).
+     ops_ok l op r /\ (addr_offset (s_pkg s) = false -> coef_expr l op r = 1%Z)).
 (* an operand that is resolved after layout through its left part has no label in its value *)
 Definition needs_ok (s : stmt) : Prop :=
   (addr_offset (s_pkg s) = true \/ cp_needs (s_pkg s) = true) ->
@@ -619,7 +624,7 @@ Lemma R_Sh D l l' : Forall2 (R D) l l' -> Forall2 (Sh D) l l'.
 Proof. induction 1 as [|a b l l' Hab _ IH]; constructor; [|exact IH]. destruct Hab as (_&_&_&_&_&_&_&_&_&_& Hs & _). exact Hs. Qed.
 
 Definition sym_ok (tb : symtab) : Prop :=
-  Forall (fun kv => match snd kv with VExpr _ op _ _ true => op = 43 \/ op = 45 | _ => True end) tb.
+  Forall (fun kv => match snd kv with VExpr l op r _ true => ops_ok l op r | _ => True end) tb.
 
 Definition sym_rel (D : Z) (kv0 kv kv' : text * value) : Prop :=
   fst kv = fst kv0 /\ fst kv' = fst kv0 /\
@@ -705,16 +710,16 @@ Proof.
       apply bind_ok in H as [a [_ H]]; unfold simple_pkg in H; apply bind_ok in H as [x [_ H]]; inversion H; subst; cbn in Hn; discriminate.
 Qed.
 
-Definition N (s : stmt) : Prop := cp_needs (s_pkg s) = true -> no_label (operand_value (s_operand s)).
-Lemma needs_ok_of s : N s -> needs_ok s.
+Definition NL (s : stmt) : Prop := cp_needs (s_pkg s) = true -> no_label (operand_value (s_operand s)).
+Lemma needs_ok_of s : NL s -> needs_ok s.
 Proof.
-  unfold N, needs_ok, no_label, addr_offset. intros H [Ha | Hn].
+  unfold NL, needs_ok, no_label, addr_offset. intros H [Ha | Hn].
   - apply andb_true_iff in Ha as [Hn _]. specialize (H Hn). destruct (operand_value (s_operand s)) as [ | | | | ? ? ? ? [] | | | | ]; auto.
   - specialize (H Hn). destruct (operand_value (s_operand s)) as [ | | | | ? ? ? ? [] | | | | ]; auto.
 Qed.
-Lemma translate_stmt_N s s' : translate_stmt s = Ok s' -> N s'.
+Lemma translate_stmt_N s s' : translate_stmt s = Ok s' -> NL s'.
 Proof.
-  unfold translate_stmt. intros H. apply bind_ok in H as [p [Hp H]]. inversion H; subst. unfold N. cbn [s_pkg s_operand].
+  unfold translate_stmt. intros H. apply bind_ok in H as [p [Hp H]]. inversion H; subst. unfold NL. cbn [s_pkg s_operand].
   apply as_te_ok in Hp. exact (translate_operand_needs _ _ _ Hp).
 Qed.
 Lemma assign_pres (P : stmt -> Prop) : (forall s s', same_but_addr s s' -> P s -> P s') ->
@@ -725,8 +730,8 @@ Proof.
   - inversion Hp as [|? ? Hs Hr]; subst. destruct (assign_step _ _ _ _ _ H) as (x & rest & -> & Hsame & _ & _ & _ & Hrest).
     constructor; [eapply HP; eauto | eapply IH; eauto].
 Qed.
-Lemma N_same_but_addr s s' : same_but_addr s s' -> N s -> N s'.
-Proof. intros (_ & _ & Eo & _ & _ & _ & _ & _ & _ & _ & En & _) H. unfold N in *. now rewrite Eo, En. Qed.
+Lemma N_same_but_addr s s' : same_but_addr s s' -> NL s -> NL s'.
+Proof. intros (_ & _ & Eo & _ & _ & _ & _ & _ & _ & _ & En & _) H. unfold NL in *. now rewrite Eo, En. Qed.
 Lemma reloc_ok_rel_fix s t : rel_fix s t -> reloc_ok t -> reloc_ok s.
 Proof.
   intros (_ & _ & Eo & _ & _ & _ & _ & _ & _ & _ & En & Ec & _) Hr. unfold reloc_ok, addr_offset in *. rewrite Eo, En, Ec in *. auto.
@@ -818,7 +823,7 @@ Proof.
   { eapply (map_res_Forall translate_stmt); [|exact T1|exact Hr2]. intros a b (Ha1 & Ha2) Hab.
     destruct (translate_stmt_own _ _ Hab) as (Ei & _). rewrite Ei. split; [exact Ha2|].
     destruct (translate_stmt_wf_org a b Ha1 Hab) as [[_ Hw] _]. apply Hw. now rewrite Ei. }
-  assert (N2 : Forall N r2).
+  assert (N2 : Forall NL r2).
   { eapply (map_res_Forall translate_stmt (fun _ => True)); [|eapply Forall_impl; [|exact T1]; intros; exact I|exact Hr2].
     intros a b _ Hab. exact (translate_stmt_N a b Hab). }
   (* the size loop *)
@@ -832,9 +837,9 @@ Proof.
   subst h3 h3'.
   assert (T3 : Forall (fun s => Tables.is_origin (s_instr s) = false /\ v_is_none (cp_addr (s_pkg s)) = true) t3).
   { eapply (Forall2_Forall rel_size); [|exact St|exact T2]. intros a b Rab (Ha1 & Ha2). destruct Rab as (_ & Ei & _ & _ & _ & Ea & _). now rewrite Ei, Ea. }
-  assert (N3 : Forall N t3).
+  assert (N3 : Forall NL t3).
   { eapply (Forall2_Forall rel_size); [|exact St|exact N2]. intros a b Rab Ha. destruct Rab as (_ & _ & Eo & _ & _ & _ & _ & En & _).
-    unfold N in *. now rewrite Eo, En. }
+    unfold NL in *. now rewrite Eo, En. }
   inversion O3 as [|? ? ? ? _ Ot]; subst.
   assert (Et : t3' = t3) by (apply O_tail_eq; [exact Ot | eapply Forall_impl; [|exact T3]; intros a [Ha _]; exact Ha]). subst t3'.
   (* the address pass *)
@@ -857,12 +862,12 @@ Proof.
   { eapply (assign_instr (fun j => Tables.is_origin j = false)); [exact Ht4'|]. eapply Forall_impl; [|exact T3]. intros a [Ha _]; exact Ha. }
   (* fix_addresses *)
   pose proof (fix_all_rel _ _ _ _ H5) as F5.
-  assert (N4 : Forall N t4) by (eapply (assign_pres N N_same_but_addr); eauto).
+  assert (N4 : Forall NL t4) by (eapply (assign_pres NL N_same_but_addr); eauto).
   assert (Hok4 : Forall (fun s => reloc_ok s /\ needs_ok s /\ org_ok s) (h4 :: t4)).
   { assert (Hrn : Forall reloc_ok (h4 :: t4)).
     { clear -F5 Hok. revert Hok. induction F5 as [|a b l l' Hab _ IH]; intros Hok; constructor; inversion Hok; subst; [eapply reloc_ok_rel_fix; eauto | auto]. }
     inversion Hrn as [|? ? Hh1 Hrt]; subst. constructor.
-    - split; [exact Hh1|]. split; [apply needs_ok_of; unfold N, h4, set_pkg; cbn; discriminate|]. intros _. split; [exists str, n; reflexivity | reflexivity].
+    - split; [exact Hh1|]. split; [apply needs_ok_of; unfold NL, h4, set_pkg; cbn; discriminate|]. intros _. split; [exists str, n; reflexivity | reflexivity].
     - clear -Hrt T4 N4. induction Hrt as [|a l Ha1 _ IH]; constructor; inversion T4; inversion N4; subst.
       + split; [exact Ha1|]. split; [now apply needs_ok_of|]. intros Ho. congruence.
       + apply IH; assumption. }
@@ -932,19 +937,28 @@ Proof.
   rewrite (parse_line_fields f i Hf Hi Hsd), Hops, Hc. reflexivity.
 Qed.
 
+Definition flatb (v : value) : bool := match v with VExpr _ _ _ _ true => false | _ => true end.
+Definition ops_okb (l : value) (op : N) (r : value) : bool := ((op =? 43) || (op =? 45)) && flatb l && flatb r.
+Lemma flatb_ok v : flatb v = true -> flat v.
+Proof. destruct v as [ | | | | ? ? ? ? [] | | | | ]; cbn; auto; discriminate. Qed.
+Lemma ops_okb_ok l op r : ops_okb l op r = true -> ops_ok l op r.
+Proof.
+  unfold ops_okb, ops_ok. intros H. apply andb_true_iff in H as [H Hr]. apply andb_true_iff in H as [H Hl].
+  split; [apply orb_true_iff in H as [H | H]; apply N.eqb_eq in H; auto | split; apply flatb_ok; assumption].
+Qed.
+
 Definition reloc_okb (s : stmt) : bool :=
-  (match operand_value (s_operand s) with VExpr _ op _ _ true => (op =? 43) || (op =? 45) | _ => true end) &&
+  (match operand_value (s_operand s) with VExpr l op r _ true => ops_okb l op r | _ => true end) &&
   (match operand_left (s_operand s) with
-   | Some (LVal (VExpr l op r _ true)) => ((op =? 43) || (op =? 45)) && (addr_offset (s_pkg s) || (coef_expr l op r =? 1)%Z)
+   | Some (LVal (VExpr l op r _ true)) => ops_okb l op r && (addr_offset (s_pkg s) || (coef_expr l op r =? 1)%Z)
    | _ => true end).
 
 Lemma reloc_okb_ok s : reloc_okb s = true -> reloc_ok s.
 Proof.
   unfold reloc_okb, reloc_ok. intros H. apply andb_true_iff in H as [H1 H2]. split.
-  - intros l op r m E. rewrite E in H1. apply orb_true_iff in H1 as [H1 | H1]; apply N.eqb_eq in H1; auto.
-  - intros l op r m E. rewrite E in H2. apply andb_true_iff in H2 as [H2 H3]. split.
-    + apply orb_true_iff in H2 as [H2 | H2]; apply N.eqb_eq in H2; auto.
-    + intros Hao. rewrite Hao in H3. cbn [orb] in H3. now apply Z.eqb_eq in H3.
+  - intros l op r m E. rewrite E in H1. now apply ops_okb_ok.
+  - intros l op r m E. rewrite E in H2. apply andb_true_iff in H2 as [H2 H3]. split; [now apply ops_okb_ok|].
+    intros Hao. rewrite Hao in H3. cbn [orb] in H3. now apply Z.eqb_eq in H3.
 Qed.
 
 Definition movable (s : stmt) : Prop :=
